@@ -200,12 +200,6 @@ Definition atomic_ok (a : atomic) : bool :=
   | _ => false
   end.
 
-Definition wf_atomics : list atomic :=
-  [ABool; AAddress; ABytes; AString]
-  ++ map (fun k => AUint (8 * N.of_nat k)) (seq 1 32)
-  ++ map (fun k => AInt (8 * N.of_nat k)) (seq 1 32)
-  ++ map (fun k => ABytesN (N.of_nat k)) (seq 1 32).
-
 Lemma wf_atomics_ok : forallb atomic_ok wf_atomics = true.
 Proof. vm_compute. reflexivity. Qed.
 
